@@ -3,6 +3,7 @@ package checks
 import (
 	"context"
 	"fmt"
+	"github.com/bartossh/Computantis/src/transaction"
 	"math/rand"
 	"sort"
 	"strings"
@@ -172,6 +173,24 @@ type c11Item struct {
 	hash   ledger.H
 	origin int
 	vrx    *accountant.Vertex
+	trx    *transaction.Transaction
+}
+
+// c11Seal seals an awaiting contract at its origin exactly as notary Confirm does (take it off the awaiting cache,
+// seal the countersigned transaction, hand the vertex to the piper).
+func c11Seal(net *vnet.Net, it c11Item) (c11Item, error) {
+	o := net.Nodes[it.origin]
+	t := *it.trx
+	ledger.CounterSign(&t, net.Users[2])
+	if _, err := o.Cache.RemoveAwaitedTransaction(t.Hash, t.ReceiverAddress); err != nil {
+		return c11Item{}, err
+	}
+	v, err := o.Book.CreateLeaf(context.Background(), &t)
+	if err != nil {
+		return c11Item{}, err
+	}
+	o.Pipe.SendVrx(&v)
+	return c11Item{"vrx", v.Hash, it.origin, &v, nil}, nil
 }
 
 // originate creates an item at the origin exactly as the notary does: seal (or save as awaiting) and hand to the piper.
@@ -186,7 +205,7 @@ func c11Originate(net *vnet.Net, origin int, kind string, seq int) (c11Item, err
 			return c11Item{}, err
 		}
 		o.Pipe.SendVrx(&v)
-		return c11Item{"vrx", v.Hash, origin, &v}, nil
+		return c11Item{"vrx", v.Hash, origin, &v, nil}, nil
 	default:
 		t := ledger.ForgeTrx(u[1], u[2].Addr, fmt.Sprintf("contract %d", seq), []byte("contract body"), spice.Melange{}, time.Now().Add(-time.Minute))
 		if err := o.Cache.SaveAwaitedTransaction(&t); err != nil {
@@ -197,7 +216,7 @@ func c11Originate(net *vnet.Net, origin int, kind string, seq int) (c11Item, err
 			return c11Item{}, err
 		}
 		o.Pipe.SendTrx(pt)
-		return c11Item{"trx", t.Hash, origin, nil}, nil
+		return c11Item{"trx", t.Hash, origin, nil, &t}, nil
 	}
 }
 
@@ -456,6 +475,58 @@ func c11RunTopology(w *core.WorkerCtx, t topo, rng *rand.Rand, budget int, order
 			c11Heal(net, -1)
 		}
 		return x
+	}
+	// an awaiting contract is gossiped, reaches everybody, and is then sealed at its origin: the sealing vertex travels
+	// through nodes that remember the contract's own gossip (duplicate suppression is per item, not per transaction)
+	execSeal := func(origin int, policy string) {
+		seq++
+		net.ResetExecution()
+		it, err := c11Originate(net, origin, "trx", seq)
+		if err != nil {
+			return
+		}
+		x := &c11Exec{w: w, net: net, t: t, rng: rng, policy: policy}
+		desc := fmt.Sprintf("topology %s origin %d items [trx, then the vertex sealing it] policy %s", t.name, origin, policy)
+		w.Mark("%s", desc)
+		if !x.drive() {
+			w.R.Inconc("execution did not reach quiescence: " + desc)
+			return
+		}
+		net.Settle()
+		c11Judge(w, net, t, []c11Item{it}, desc+" (phase 1)", -1, nil)
+		sv, err := c11Seal(net, it)
+		if err != nil {
+			w.R.Note("sealing failed: " + err.Error())
+			return
+		}
+		net.ResetExecution()
+		x2 := &c11Exec{w: w, net: net, t: t, rng: rng, policy: policy}
+		if !x2.drive() {
+			w.R.Inconc("execution did not reach quiescence: " + desc)
+			return
+		}
+		c11Retries(net, -1)
+		net.Settle()
+		c11Judge(w, net, t, []c11Item{sv}, desc+" (phase 2)", -1, nil)
+		// the sealed contract is no longer awaiting anywhere
+		for j := 0; j < t.k; j++ {
+			trxs, _ := net.Nodes[j].Cache.ReadTransactions(net.Users[2].Addr)
+			for _, a := range trxs {
+				if a.Hash == it.hash {
+					if _, err := net.Nodes[j].Book.ReadVertex(context.Background(), sv.hash); err == nil {
+						w.R.Violate("C11", "sealed-contract-still-awaiting", fmt.Sprintf("%s: node %d holds the sealing vertex and still lists the contract as awaiting", desc, j), nil)
+					}
+				}
+			}
+		}
+		w.R.Eval(1)
+		w.R.Count("c11_executions", 1)
+		w.R.Count("c11_seal_executions", 1)
+		w.R.Nontriv(fmt.Sprintf("%s/seal/origin%d/%s/%s", t.name, origin, policy, net.OrderString()))
+		c11Heal(net, -1)
+	}
+	for origin := 0; origin < t.k && origin < 2; origin++ {
+		execSeal(origin, []string{"fifo", "random"}[origin%2])
 	}
 	// systematic enumeration of delivery orders, one item in flight, every origin
 	for origin := 0; origin < t.k && budget > 0; origin++ {
